@@ -30,6 +30,10 @@ type c01Case struct {
 	Signers    []int // party ids, |Signers| in T..N
 	SignDigest []byte
 	Topic      string
+	// PickPerm: order in which the silent-mode member selection returns the (common) member list.
+	PickPerm []int
+	// Order in which every signer subset is handed to the aggregator: 0 ascending, 1 descending, 2 rotated.
+	Order int
 }
 
 func genSchedule(t *rapid.T, maxLen int) sim.Schedule {
@@ -68,6 +72,8 @@ func genC01(maxN int) func(t *rapid.T) c01Case {
 		c.Signers = sortedInts(perm[:k])
 		c.SignDigest = genDigest(t, "signDigest")
 		c.Topic = rapid.StringMatching(`[a-z]{1,6}`).Draw(t, "topic")
+		c.PickPerm = rapid.Permutation(seq(0, c.N-1)).Draw(t, "pickPerm")
+		c.Order = rapid.IntRange(0, 2).Draw(t, "order")
 		return c
 	}
 }
@@ -152,10 +158,21 @@ func runC01(c c01Case) *vh.Outcome {
 			},
 			Pick: func(node uint16) func([]byte, int) []uint16 {
 				return func(topic []byte, expected int) []uint16 {
+					src := signers
 					if expected == c.N {
-						return append([]uint16(nil), all...)
+						src = all
 					}
-					return append([]uint16(nil), signers...)
+					// the same list on every node, in the generated (not necessarily ascending) order
+					out := make([]uint16, 0, len(src))
+					for _, i := range c.PickPerm {
+						if i < len(src) {
+							out = append(out, src[i])
+						}
+					}
+					for i := len(c.PickPerm); i < len(src); i++ {
+						out = append(out, src[i])
+					}
+					return out
 				}
 			},
 		})
@@ -227,7 +244,16 @@ func runC01(c c01Case) *vh.Outcome {
 		o.Fail = vh.Failf("C01/harness-panic", "%s", br.Panic)
 		return o
 	}
-	o.Classes = append(o.Classes, fmt.Sprintf("n=%d", c.N), fmt.Sprintf("silent=%v", c.Silent))
+	o.Classes = append(o.Classes, fmt.Sprintf("n=%d", c.N), fmt.Sprintf("silent=%v", c.Silent), fmt.Sprintf("subset-order=%d", c.Order))
+	asc := true
+	for i := 1; i < len(c.PickPerm); i++ {
+		if c.PickPerm[i] < c.PickPerm[i-1] {
+			asc = false
+		}
+	}
+	if c.Silent && !asc {
+		o.Classes = append(o.Classes, "silent-pick-not-ascending")
+	}
 	if info.Overtakes > 0 {
 		o.Classes = append(o.Classes, "overtaking")
 	}
@@ -303,7 +329,16 @@ func runC01(c c01Case) *vh.Outcome {
 			nsub++
 			var ss [][]byte
 			var ids []uint16
-			for _, p := range sub {
+			ord := append([]int(nil), sub...)
+			switch c.Order {
+			case 1:
+				for i, j := 0, len(ord)-1; i < j; i, j = i+1, j-1 {
+					ord[i], ord[j] = ord[j], ord[i]
+				}
+			case 2:
+				ord = append(ord[1:], ord[0])
+			}
+			for _, p := range ord {
 				ss = append(ss, partials[p-1])
 				ids = append(ids, uint16(p))
 			}
